@@ -674,3 +674,49 @@ func TestVerif_C02_Contact(t *testing.T) {
 		},
 	})
 }
+
+// C10 layer 3: flooding / malformed answers inside a real lookup.
+func TestVerif_C10_LookupFlood(t *testing.T) {
+	verifsim.RunCheck(t, verifsim.Check[lkSc]{
+		Property: "C10", Part: "lookup-flood",
+		Rule: "rapid: the adversarial lookup scenarios with every answering peer flooding (raw lists of 2K+3..6K entries incl. self, duplicates, unknown peers); oracle: the lookup returns (no hang, no panic) and " +
+			"at most 2K peers of one response enter the lookup (Heard of each Response event), plus the C01 result clauses; non-trivial = some response listed more than 2K peers",
+		Gen: func(t *rapid.T) lkSc {
+			s := genAdversarial(t)
+			n := len(s.Peers)
+			for i := range s.Peers {
+				p := &s.Peers[i]
+				if rapid.IntRange(0, 2).Draw(t, "flood") != 0 {
+					p.Raw = true
+					for j := rapid.IntRange(2*s.K+1, 6*s.K).Draw(t, "floodN"); j > 0; j-- {
+						p.Knows = append(p.Knows, rapid.IntRange(-6, n-1).Draw(t, "floodRef"))
+					}
+				}
+			}
+			return s
+		},
+		Run: func(t *testing.T, s lkSc) (res verifsim.Result) {
+			obs := runGetClosest(t, &s)
+			f := judgeLookup(&s, obs, &res)
+			for i := range res.Violations {
+				res.Violations[i].Signature = "C10/l3/" + res.Violations[i].Signature
+			}
+			if f == nil {
+				return
+			}
+			flooded := false
+			for _, te := range obs.Events {
+				if te.Ev.Response != nil && len(te.Ev.Response.Heard) > 2*s.K {
+					res.Fail("cap-2k", "C10/l3/more-than-2k-enter", "%d peers of one response entered the lookup (K=%d)", len(te.Ev.Response.Heard), s.K)
+				}
+			}
+			for _, e := range obs.Log {
+				if e.Kind == "request" && e.Outcome == "ok" && len(e.Resp.GetCloserPeers()) > 2*s.K {
+					flooded = true
+				}
+			}
+			res.NonTrivial = flooded
+			return
+		},
+	})
+}
